@@ -19,6 +19,7 @@
   exact-size input blocks), which compares every public tokener field after every call.
 -/
 import JsonC.Lemmas.TokenerStep
+import JsonC.Lemmas.TranslatedTok
 import JsonC.Lemmas.TokenerScrub2
 import JsonC.Lemmas.TokenerTable
 import JsonC.Generated.Structure
